@@ -371,7 +371,11 @@ class Form(Node):
 
         ex = e * cos(ω)
         ey = e * sin(ω)
-        α = (ω + M) % (2 * np.pi)
+        if e < 1:
+            α = (ω + M) % (2 * np.pi)
+        else:
+            # the mean anomaly of a hyperbolic orbit is not an angle: keep it whole
+            α = ω % (2 * np.pi) + M
 
         return np.array([a, ex, ey, i, Ω, α], dtype=float)
 
@@ -382,7 +386,7 @@ class Form(Node):
 
         e = sqrt(ex ** 2 + ey ** 2)
         ω = arctan2(ey / e, ex / e)
-        M = α - ω
+        M = α - ω if e < 1 else α - ω % (2 * np.pi)
 
         return np.array([a, e, i, Ω, ω, M], dtype=float)
 
